@@ -26,6 +26,8 @@ def check_operator_table(res, f, rid, wrap=None, width='u64', extra_tokens=()):
             continue
         pb, pushed = e['pushes'][0]
         got, ok, why = cfiwin.binary_shape(f, pushed, wrap)
+        checked = bool(got) and got.endswith('#checked')
+        got = got[:-len('#checked')] if checked else got
         if got != op or not ok:
             res.violation(rid, '%s|op|%s' % (rid, tok), f, f.blocks[pb]['t'].get('line'), 'operator `%s` computes %s%s (expected %s(lhs, rhs) with rhs popped first)' % (tok, got, (': ' + why) if why else '', op))
             continue
@@ -35,7 +37,8 @@ def check_operator_table(res, f, rid, wrap=None, width='u64', extra_tokens=()):
             if tok == '@':
                 # a power of two is not zero: `!rhs.is_power_of_two() => fail` alone rejects a zero alignment
                 nz = nz or any(r[0] == 'true' and is_call(r[1], 'is_power_of_two') and show(r[1][2]) == 'rhs' for r in facts)
-            if not nz or not e['none']:
+            nz = nz or (checked and tok in ('/', '%'))
+            if not nz or not (e['none'] or checked):
                 res.violation(rid, '%s|zero|%s' % (rid, tok), f, f.blocks[pb]['t'].get('line'), 'operator `%s` is not guarded by `rhs == 0 => fail`' % tok)
                 continue
         if tok == '@':
